@@ -241,6 +241,7 @@ pub fn hbases() -> Vec<HBase> {
             order: vec![],
             gaps: vec![],
             raw: vec![false; 3],
+            force_compressed: vec![],
             hash_len: 64,
             params,
             comp: codec::Comp { compression: comp, compression_level: if comp == 0 { 0 } else { 5 } },
